@@ -7,6 +7,7 @@ import (
 	"math/rand"
 	"os"
 	"strings"
+	"sync"
 )
 
 func caseRand(seed int64, idx int) *rand.Rand {
@@ -22,6 +23,7 @@ func main() {
 	out := flag.String("out", "", "output file (appended)")
 	progress := flag.String("progress", "", "progress file")
 	descs := flag.String("descs", "", "file with one JSON case descriptor per line: run these instead of generating")
+	conc := flag.Int("conc", 1, "number of goroutines running cases concurrently (C16)")
 	flag.Parse()
 	f := os.Stdout
 	if *out != "" {
@@ -33,7 +35,7 @@ func main() {
 		}
 		defer f.Close()
 	}
-	e := &emitter{out: f, progress: *progress}
+	e := &emitter{out: f, progress: *progress, mu: &sync.Mutex{}}
 	var lines []string
 	if *descs != "" {
 		data, err := os.ReadFile(*descs)
@@ -48,8 +50,10 @@ func main() {
 		}
 		*count = len(lines)
 	}
-	for idx := *from; idx < *count; idx++ {
-		r := caseRand(*seed, idx)
+	runOne := func(e *emitter, propName string, idx, gidx int) {
+		prop := &propName
+
+		r := caseRand(*seed, gidx)
 		desc := ""
 		if lines != nil {
 			desc = lines[idx]
@@ -62,7 +66,7 @@ func main() {
 				mustJSON(desc, p)
 				p.norm()
 			} else {
-				p = genC05(r, idx, *tier)
+				p = genC05(r, gidx, *tier)
 			}
 			runC05(e, idx, p)
 		case "C01", "C02", "C06":
@@ -72,9 +76,9 @@ func main() {
 				mustJSON(desc, c)
 				c.P.norm()
 			} else if *prop == "C02" {
-				c = genC02(r, idx, *tier)
+				c = genC02(r, gidx, *tier)
 			} else {
-				c = genC01(r, idx, *tier)
+				c = genC01(r, gidx, *tier)
 				if *prop == "C06" {
 					c.Cfg.Cert = true
 				}
@@ -87,7 +91,7 @@ func main() {
 				mustJSON(desc, c)
 				c.norm()
 			} else {
-				c = genC03(r, idx, *tier)
+				c = genC03(r, gidx, *tier)
 			}
 			runC03(e, idx, c)
 		case "C04":
@@ -97,7 +101,7 @@ func main() {
 				mustJSON(desc, c)
 				c.norm()
 			} else {
-				c = genC04(r, idx, *tier)
+				c = genC04(r, gidx, *tier)
 			}
 			runC04(e, idx, c)
 		case "C09":
@@ -107,7 +111,7 @@ func main() {
 				mustJSON(desc, c)
 				c.norm()
 			} else {
-				c = genC09(r, idx, *tier)
+				c = genC09(r, gidx, *tier)
 			}
 			runC09(e, idx, c)
 		case "C10":
@@ -117,7 +121,7 @@ func main() {
 				mustJSON(desc, c)
 				c.P.norm()
 			} else {
-				c = genC10(r, idx, *tier)
+				c = genC10(r, gidx, *tier)
 			}
 			runC10(e, idx, c)
 		case "C14", "C15", "C15solve":
@@ -127,9 +131,9 @@ func main() {
 				mustJSON(desc, c)
 				c.P.norm()
 			} else if *prop == "C14" {
-				c = genC14(r, idx, *tier)
+				c = genC14(r, gidx, *tier)
 			} else {
-				c = genC15(r, idx, *tier)
+				c = genC15(r, gidx, *tier)
 			}
 			switch *prop {
 			case "C14":
@@ -146,7 +150,7 @@ func main() {
 				mustJSON(desc, c)
 				c.norm()
 			} else {
-				c = genC14opt(r, idx, *tier)
+				c = genC14opt(r, gidx, *tier)
 			}
 			runC03(e, idx, c)
 		case "C07", "C08", "C08s":
@@ -156,9 +160,9 @@ func main() {
 				mustJSON(desc, c)
 				c.norm()
 			} else if *prop == "C07" {
-				c = genC07(r, idx, *tier)
+				c = genC07(r, gidx, *tier)
 			} else if *prop == "C08" {
-				c = genC08(r, idx, *tier)
+				c = genC08(r, gidx, *tier)
 			} else {
 				c = genCnfForMus(r, *tier)
 			}
@@ -177,17 +181,53 @@ func main() {
 				mustJSON(desc, c)
 				c.F.norm()
 			} else {
-				c = genC11(r, idx, *tier, *prop == "C12")
+				c = genC11(r, gidx, *tier, *prop == "C12")
 			}
 			if *prop == "C11" {
 				runC11(e, idx, c)
 			} else {
 				runC12(e, idx, c)
 			}
+		case "C20o", "C20m", "C20e":
+			var c *StreamCase
+			if desc != "" {
+				c = &StreamCase{}
+				mustJSON(desc, c)
+				c.norm()
+			} else {
+				c = genC20(r, gidx, *tier, *prop)
+			}
+			runC20(e, idx, c)
 		default:
 			fmt.Fprintln(os.Stderr, "unknown property", *prop)
 			os.Exit(2)
 		}
+	}
+	if *conc <= 1 {
+		for idx := *from; idx < *count; idx++ {
+			runOne(e, *prop, idx, idx)
+		}
+	} else {
+		// C16: k goroutines run data-independent cases of different kinds at the same time
+		jobs := make(chan int)
+		var wg sync.WaitGroup
+		mix := []string{"C01", "C05", "C03", "C04", "C07", "C11", "C02", "C09"}
+		judges := map[string]string{"C01": "solve", "C02": "solve", "C05": "C05", "C03": "C03", "C04": "C04", "C07": "C07", "C11": "C11", "C09": "C09"}
+		for w := 0; w < *conc; w++ {
+			wg.Add(1)
+			go func() {
+				defer wg.Done()
+				for idx := range jobs {
+					p := mix[idx%len(mix)]
+					runOne(e.with(judges[p]), p, idx, 20000+idx)
+				}
+			}()
+		}
+		for idx := *from; idx < *count; idx++ {
+			jobs <- idx
+		}
+		close(jobs)
+		wg.Wait()
 	}
 	if *progress != "" {
 		os.WriteFile(*progress, []byte("done\n"), 0o644)
